@@ -115,6 +115,7 @@ type Node struct {
 	RvInfo       [][]protocol.RvInstruction
 	AcceptTTL    func(ctx context.Context, ov fdo.Voucher, req uint32) (uint32, error)
 	MaxDevSISize uint16 // 0: unset
+	MaxContent   int64  // http.Handler.MaxContentLength (0: the library default of 65535)
 	VerifyOV     func(context.Context, fdo.Voucher) error
 
 	// WrapTO2 optionally wraps the TO2 responder (tunnel taps, rogue owner).
@@ -200,7 +201,7 @@ func (n *Node) Rebuild() {
 	if n.WrapTO2 != nil {
 		to2 = n.WrapTO2(n.TO2)
 	}
-	n.handler = &fdo_http.Handler{Tokens: st, DIResponder: n.DI, TO0Responder: n.TO0, TO1Responder: n.TO1, TO2Responder: to2}
+	n.handler = &fdo_http.Handler{Tokens: st, DIResponder: n.DI, TO0Responder: n.TO0, TO1Responder: n.TO1, TO2Responder: to2, MaxContentLength: n.MaxContent}
 }
 
 func (n *Node) rvinfo() [][]protocol.RvInstruction {
@@ -212,11 +213,15 @@ func (n *Node) rvinfo() [][]protocol.RvInstruction {
 
 // World is one simulated deployment.
 type World struct {
-	K       *Kernel
-	Net     *Net
-	Journal *Journal
-	Keys    *KeyPool
-	Nodes   map[string]*Node
+	// MaxContent is the transports' MaxContentLength (0: library default). A
+	// deployment that negotiates service-info MTUs near 65535 has to raise the
+	// limits of its HTTP layer, as the message adds framing and encryption.
+	MaxContent int64
+	K          *Kernel
+	Net        *Net
+	Journal    *Journal
+	Keys       *KeyPool
+	Nodes      map[string]*Node
 }
 
 func NewWorld(k *Kernel) *World {
@@ -262,7 +267,7 @@ func (w *World) provision(add func(protocol.KeyType, int, *KeyEntry), role strin
 
 // Transport returns an FDO HTTP transport from client `from` to node `to`.
 func (w *World) Transport(from, to string) *fdo_http.Transport {
-	return &fdo_http.Transport{BaseURL: "http://" + to, Client: &http.Client{Transport: w.Net.Link(from, to)}}
+	return &fdo_http.Transport{BaseURL: "http://" + to, Client: &http.Client{Transport: w.Net.Link(from, to)}, MaxContentLength: w.MaxContent}
 }
 
 // Device is a simulated device: key, HMAC secret and the persisted credential.
